@@ -54,6 +54,84 @@ func axisSamples(lo, hi float64, n int) []float64 {
 	return out
 }
 
+func history2() []shapes.N2 {
+	circ := func(x, y, r float64) sdf.SDF2 {
+		s, _ := sdf.Circle2D(r)
+		return sdf.Transform2D(s, sdf.Translate2d(v2.Vec{X: x, Y: y}))
+	}
+	mk := func(name, root string, b func() (sdf.SDF2, error)) shapes.N2 {
+		return shapes.N2{Name: name + " (argument slice overwritten afterwards)", Root: root, Build: b, OperandExact: true}
+	}
+	return []shapes.N2{
+		mk("Union2D(list...)", "Union2D", func() (sdf.SDF2, error) {
+			list := []sdf.SDF2{circ(0, 0, 1), circ(2, 0, 0.5)}
+			u := sdf.Union2D(list...)
+			list[0], list[1] = circ(4, 0, 0.8), circ(0, 3.2, 0.5)
+			return u, nil
+		}),
+		mk("Union2D(list with nil...)", "Union2D", func() (sdf.SDF2, error) {
+			list := []sdf.SDF2{nil, circ(0, 0, 1), nil, circ(2, 0, 0.5)}
+			u := sdf.Union2D(list...)
+			for i := range list {
+				list[i] = circ(4, float64(i), 0.8)
+			}
+			return u, nil
+		}),
+		mk("Multi2D(circle, positions)", "Multi2D", func() (sdf.SDF2, error) {
+			pos := v2.VecSet{{X: 0, Y: 0}, {X: 2, Y: 0}}
+			u := sdf.Multi2D(circ(0, 0, 0.5), pos)
+			pos[0], pos[1] = v2.Vec{X: 3.5, Y: 0}, v2.Vec{X: 0, Y: 2}
+			return u, nil
+		}),
+		mk("Polygon2D(vertices)", "Polygon2D", func() (sdf.SDF2, error) {
+			vs := []v2.Vec{{X: 0, Y: 0}, {X: 2, Y: 0}, {X: 2, Y: 1}, {X: 0, Y: 1}}
+			u, err := sdf.Polygon2D(vs)
+			vs[1], vs[2] = v2.Vec{X: 3.5, Y: 0}, v2.Vec{X: 3.5, Y: 1.4}
+			return u, err
+		}),
+	}
+}
+
+func history3() []shapes.N3 {
+	ball := func(x, y, z, r float64) sdf.SDF3 {
+		s, _ := sdf.Sphere3D(r)
+		return sdf.Transform3D(s, sdf.Translate3d(v3.Vec{X: x, Y: y, Z: z}))
+	}
+	mk := func(name, root string, b func() (sdf.SDF3, error)) shapes.N3 {
+		return shapes.N3{Name: name + " (argument slice overwritten afterwards)", Root: root, Build: b, OperandExact: true}
+	}
+	return []shapes.N3{
+		mk("Union3D(list...)", "Union3D", func() (sdf.SDF3, error) {
+			list := []sdf.SDF3{ball(0, 0, 0, 1), ball(2, 0, 0, 0.5)}
+			u := sdf.Union3D(list...)
+			list[0], list[1] = ball(4, 0, 0, 0.8), ball(0, 3.2, 0, 0.5)
+			return u, nil
+		}),
+		mk("Union3D(list with nil...)", "Union3D", func() (sdf.SDF3, error) {
+			list := []sdf.SDF3{nil, ball(0, 0, 0, 1), nil, ball(2, 0, 0, 0.5)}
+			u := sdf.Union3D(list...)
+			for i := range list {
+				list[i] = ball(4, 0, float64(i), 0.8)
+			}
+			return u, nil
+		}),
+		mk("Multi3D(sphere, positions)", "Multi3D", func() (sdf.SDF3, error) {
+			pos := v3.VecSet{{X: 0}, {X: 2}}
+			u := sdf.Multi3D(ball(0, 0, 0, 0.5), pos)
+			pos[0], pos[1] = v3.Vec{X: 3.5}, v3.Vec{Y: 2}
+			return u, nil
+		}),
+		mk("Orient3D(cylinder, directions)", "Orient3D", func() (sdf.SDF3, error) {
+			cy, _ := sdf.Cylinder3D(4, 0.3, 0)
+			base := v3.Vec{Z: 1}
+			dirs := v3.VecSet{{X: 1}, {Z: 1}}
+			u := sdf.Orient3D(cy, base, dirs)
+			dirs[0], dirs[1] = v3.Vec{Y: 1}, v3.Vec{Y: 1}
+			return u, nil
+		}),
+	}
+}
+
 func main() {
 	c := vlib.Start("C01")
 	skip := func(name string) bool {
@@ -88,6 +166,9 @@ func main() {
 			n3 = append(n3, n)
 		}
 	}
+	// constructor histories: the caller's argument slice is written again after construction (a scratch
+	// slice reused for the next group); the first object must keep its solid inside the box it reports
+	n2, n3 = append(n2, history2()...), append(n3, history3()...)
 	N2, N3 := vlib.Pick(c, 12, 24), vlib.Pick(c, 5, 10)
 	var mu sync.Mutex
 	var fails []failure
